@@ -220,6 +220,16 @@ Theorem C13_refuted_crash : exists h m, obs_of (run_hist h G0) m true = OErr "Ke
 Proof. exists [Compile M4 false false false], M0. vm_compute. reflexivity. Qed.
 Print Assumptions C13_refuted_crash.
 
+(* input_labels (compilations with extrinsic inputs): written by CompileIn, reset by circuit.clear() and by
+   clear_frontend_caches(clear_ir_cache=True) (since D78), NOT by clear_frontend_caches(clear_ir_cache=False) *)
+Example C13_input_labels :
+  input_labels (run_hist_with true [CompileIn M0 false false false] G0) <> [] /\
+  frontend_clean (run_hist_with true [CompileIn M0 false false false; CFC false true] G0) = true /\
+  input_labels (run_hist_with true [CompileIn M0 false false false; CFC true false] G0) <> [] /\
+  input_labels (run_hist_with false [CompileIn M0 false false false; CFC true true] G0) <> [] /\
+  frontend_clean (run_hist_with true [CompileIn M0 false false false; CompileIn M3 true false true; MClear 1] G0) = true.
+Proof. vm_compute. repeat split; try reflexivity; discriminate. Qed.
+
 Theorem C13_refuted : ~ C13_full_statement.
 Proof.
   intros [H _]. destruct C13_refuted_op_cache_by_name as (h & m & vec & K). apply K. apply H.
